@@ -1,0 +1,43 @@
+//go:build verif
+
+// Code added for /verif runtime monitors: exported forwarders to unexported point routines.
+// Compiled only with -tags verif; adds no behaviour.
+
+package grumpkin
+
+import "math/big"
+
+var _ = big.NewInt
+
+// ---- G1 ----
+
+// VerifG1JacExtended exposes the extended-Jacobian bucket type.
+type VerifG1JacExtended = g1JacExtended
+
+func (p *G1Jac) VerifMulWindowed(q *G1Jac, s *big.Int) *G1Jac { return p.mulWindowed(q, s) }
+
+func (p *G1Jac) VerifMulGLV(q *G1Jac, s *big.Int) *G1Jac { return p.mulGLV(q, s) }
+
+// VerifG1ExtOp applies one unexported bucket operation.
+func VerifG1ExtOp(op string, p, q *g1JacExtended, a *G1Affine) {
+	switch op {
+	case "add":
+		p.add(q)
+	case "double":
+		p.double(q)
+	case "addMixed":
+		p.addMixed(a)
+	case "subMixed":
+		p.subMixed(a)
+	case "doubleMixed":
+		p.doubleMixed(a)
+	case "doubleNegMixed":
+		p.doubleNegMixed(a)
+	default:
+		panic("unknown op")
+	}
+}
+
+func VerifG1AffineFromExt(p *G1Affine, q *g1JacExtended) { p.fromJacExtended(q) }
+func VerifG1JacFromExt(p *G1Jac, q *g1JacExtended)       { p.fromJacExtended(q) }
+func VerifG1JacUnsafeFromExt(p *G1Jac, q *g1JacExtended) { p.unsafeFromJacExtended(q) }
